@@ -297,6 +297,8 @@ def judge(cfg, cases, rundir, tag="s"):
                 raise Infra("correspondence shard %d did not evaluate (renderer / decoder bug, "
                             "not a verdict):\n%s" % (idx, msg))
             results[idx] = res
+            if os.environ.get("VERIF_TIMING"):
+                print("shard %d (%s): %d cases, %.1fs" % (idx, tag, len(shards[idx]), dt), file=sys.stderr)
     flat = [r for s in results for r in s]
     assert len(flat) == len(cases)
     return flat
